@@ -39,6 +39,13 @@
 #error "It is included as part of translate.c"
 #endif
 
+#ifndef RFB_LOAD24
+/* the 3 bytes of a 24-bpp pixel as a host-order value; never touches the byte after the pixel */
+#define RFB_LOAD24(p) (rfbEndianTest ? \
+    ((uint32_t)(p)[0] | ((uint32_t)(p)[1] << 8) | ((uint32_t)(p)[2] << 16)) : \
+    ((uint32_t)(p)[2] | ((uint32_t)(p)[1] << 8) | ((uint32_t)(p)[0] << 16)))
+#endif
+
 #if BPP == 24
 
 /*
@@ -58,14 +65,13 @@ rfbTranslateWithSingleTable24to24 (char *table, rfbPixelFormat *in,
     int ipextra = bytesBetweenInputLines - width * 3;
     uint8_t *opLineEnd;
     uint8_t *t = (uint8_t *)table;
-    int shift = rfbEndianTest?0:8;
     uint8_t c;
 
     while (height > 0) {
         opLineEnd = op + width*3;
 
         while (op < opLineEnd) {
-	    *(uint32_t*)op = t[((*(uint32_t *)ip)>>shift)&0x00ffffff];
+	    *(uint32_t*)op = t[RFB_LOAD24(ip)];
 	    if(!rfbEndianTest)
 	      memmove(op,op+1,3);
 	    if (out->bigEndian != in->bigEndian) {
@@ -100,13 +106,12 @@ rfbTranslateWithRGBTables24to24 (char *table, rfbPixelFormat *in,
     uint8_t *greenTable = redTable + 3*(in->redMax + 1);
     uint8_t *blueTable = greenTable + 3*(in->greenMax + 1);
     uint32_t outValue,inValue;
-    int shift = rfbEndianTest?0:8;
 
     while (height > 0) {
         opLineEnd = op+3*width;
 
         while (op < opLineEnd) {
-	    inValue = ((*(uint32_t *)ip)>>shift)&0x00ffffff;
+	    inValue = RFB_LOAD24(ip);
             outValue = (redTable[(inValue >> in->redShift) & in->redMax] |
                        greenTable[(inValue >> in->greenShift) & in->greenMax] |
                        blueTable[(inValue >> in->blueShift) & in->blueMax]);
@@ -149,13 +154,12 @@ rfbTranslateWithSingleTable24toOUT (char *table, rfbPixelFormat *in,
     int ipextra = bytesBetweenInputLines - width*3;
     OUT_T *opLineEnd;
     OUT_T *t = (OUT_T *)table;
-    int shift = rfbEndianTest?0:8;
 
     while (height > 0) {
         opLineEnd = op + width;
 
         while (op < opLineEnd) {
-            *(op++) = t[((*(uint32_t *)ip)>>shift)&0x00ffffff];
+            *(op++) = t[RFB_LOAD24(ip)];
 	    ip+=3;
         }
 
@@ -185,13 +189,12 @@ rfbTranslateWithRGBTables24toOUT (char *table, rfbPixelFormat *in,
     OUT_T *greenTable = redTable + in->redMax + 1;
     OUT_T *blueTable = greenTable + in->greenMax + 1;
     uint32_t inValue;
-    int shift = rfbEndianTest?0:8;
 
     while (height > 0) {
         opLineEnd = &op[width];
 
         while (op < opLineEnd) {
-	    inValue = ((*(uint32_t *)ip)>>shift)&0x00ffffff;
+	    inValue = RFB_LOAD24(ip);
             *(op++) = (redTable[(inValue >> in->redShift) & in->redMax] |
                        greenTable[(inValue >> in->greenShift) & in->greenMax] |
                        blueTable[(inValue >> in->blueShift) & in->blueMax]);
